@@ -654,20 +654,32 @@ class Evaluator:
                     fr.env[holder[1]] = T.obj_set(fr.env[holder[1]], holder[2], newval)
                     fr.mutated.add(holder[1])
                     self.effects.append(('subscript-store', fr.fn.qual if fr.fn else None, target.lineno, ast.unparse(target)))
-            if holder is not None and T.tag(cur) == 'dict' and not isinstance(target.slice, ast.Slice):
+            if holder is not None and T.tag(cur) in ('dict', 'phi') and not isinstance(target.slice, ast.Slice):
                 key = self.expr(target.slice, fr)
-                if T.tag(key) not in ('phi', 'raise', 'opaque'):
-                    if T.is_const(key) and all(T.is_const(k_) for k_, _ in cur[1]):
-                        pairs = [(k_, v_) for k_, v_ in cur[1] if k_ != key]
-                        if len(pairs) == len(cur[1]):
+
+                def store_into(d, _depth=0):
+                    # the mapping may itself be a case distinction (a key stored under a condition earlier on)
+                    if T.tag(d) == 'phi' and _depth < 16:
+                        a_, b_ = store_into(d[2], _depth + 1), store_into(d[3], _depth + 1)
+                        return None if a_ is None or b_ is None else T.phi(d[1], a_, b_)
+                    if T.tag(d) == 'raise':
+                        return d
+                    if T.tag(d) != 'dict':
+                        return None
+                    if T.is_const(key) and all(T.is_const(k_) for k_, _ in d[1]):
+                        pairs = [(k_, v_) for k_, v_ in d[1] if k_ != key]
+                        if len(pairs) == len(d[1]):
                             pairs.append((key, v))
                         else:
-                            pairs = [(k_, (v if k_ == key else v_)) for k_, v_ in cur[1]]
+                            pairs = [(k_, (v if k_ == key else v_)) for k_, v_ in d[1]]
                     else:
                         # symbolic key: the newest binding is looked at first (it shadows an older equal key)
-                        pairs = [(key, v)] + [(k_, v_) for k_, v_ in cur[1] if k_ != key]
-                    if len(pairs) <= 32:
-                        put(T.dct(pairs))
+                        pairs = [(key, v)] + [(k_, v_) for k_, v_ in d[1] if k_ != key]
+                    return T.dct(pairs) if len(pairs) <= 32 else None
+                if T.tag(key) not in ('phi', 'raise', 'opaque'):
+                    nv = store_into(cur)
+                    if nv is not None:
+                        put(nv)
                         return
             if holder is not None and holder[0] == 'name':
                 fr.env[holder[1]] = T.opaque('subscript store on %s' % holder[1])
@@ -1037,13 +1049,26 @@ class Evaluator:
             acc, elem_expr = last.value.func.value.id, last.value.args[0]
             if fr.env.get(acc) != T.lst([]):
                 return False
-        def simple(s_):
+        # per-iteration locals: names bound by a top-level assignment of the body (fresh in every iteration from there on)
+        fresh_at = {}
+        for i_, s_ in enumerate(body[:-1]):
+            if isinstance(s_, ast.Assign):
+                for t_ in s_.targets:
+                    if isinstance(t_, ast.Name):
+                        fresh_at.setdefault(t_.id, i_)
+
+        def simple(s_, pos):
             if isinstance(s_, ast.Assign):
                 return all(isinstance(t_, ast.Name) for t_ in s_.targets)
             if isinstance(s_, ast.If):
-                return all(simple(x) for x in s_.body + s_.orelse)
+                return all(simple(x, pos) for x in s_.body + s_.orelse)
+            if isinstance(s_, ast.Expr) and isinstance(s_.value, ast.Call) and isinstance(s_.value.func, ast.Attribute) \
+                    and s_.value.func.attr in X.MUTATOR_NAMES and isinstance(s_.value.func.value, ast.Name):
+                # in-place growth of a list this iteration built itself (`row = [...]; if c: row.append(x)`)
+                nm = s_.value.func.value.id
+                return nm in fresh_at and fresh_at[nm] < pos
             return isinstance(s_, ast.Pass)
-        if not all(simple(s_) for s_ in body[:-1]):
+        if not all(simple(s_, i_) for i_, s_ in enumerate(body[:-1])):
             return False
         temps = {n.id for s_ in body[:-1] for n in ast.walk(s_) if isinstance(n, ast.Name) and isinstance(n.ctx, ast.Store)}
         if acc in temps:
@@ -1184,6 +1209,13 @@ class Evaluator:
             for x in c[2:]:
                 out = T.or_(out, self.decide(x, fr))
             return out
+        if T.is_op(c, 'BOOL') and len(c) == 3 and T.type_of(c[2]) == 'int':
+            # truth of an integer: non-zero
+            lo, hi = bounds_of(c[2], fr.facts)
+            if (lo is not None and lo > 0) or (hi is not None and hi < 0):
+                return T.TRUE
+            if lo is not None and lo == hi == 0:
+                return T.FALSE
         if T.is_op(c, 'LT') or T.is_op(c, 'EQ'):
             a, b = _num_const(c[2]), _num_const(c[3])
             if _is_int_const(a) and not _is_int_const(b):
@@ -1406,6 +1438,8 @@ class Evaluator:
                     acc = b
                 elif T.type_of(acc) == 'bool' and T.type_of(b) == 'bool':
                     acc = T.or_(acc, b)
+                elif (T.type_of(acc), b) in (('int', T.const(0)), ('str', T.const('')), ('bytes', T.const(b''))):
+                    pass        # `x or 0` is x (the only falsy int is 0 itself); likewise '' and b''
                 else:
                     acc = T.phi(c, acc, b)
         fr.facts = f0
@@ -1440,6 +1474,13 @@ class Evaluator:
             return T.phi(a[1], self.binop(o, a[2], b, fr), self.binop(o, a[3], b, fr))
         if T.tag(b) == 'phi' and not T.tag(a) == 'phi':
             return T.phi(b[1], self.binop(o, a, b[2], fr), self.binop(o, a, b[3], fr))
+        if isinstance(o, ast.Add) and (T.is_op(a, 'BARR') or T.is_op(b, 'BARR')):
+            # bytearray + bytes-like is a bytearray, bytes + bytearray is bytes
+            ia = a[2] if T.is_op(a, 'BARR') else a
+            ib = b[2] if T.is_op(b, 'BARR') else b
+            if T.type_of(ia) == 'bytes' and T.type_of(ib) == 'bytes':
+                return T.raw_op('BARR', T.cat(ia, ib)) if T.is_op(a, 'BARR') else T.cat(ia, ib)
+            return T.opaque('bytearray + value that is not known to be bytes')
         if isinstance(o, ast.Add):
             # point addition (ecdsa Point.__add__)
             if T.type_of(a) == 'point' or T.type_of(b) == 'point':
@@ -1540,6 +1581,8 @@ class Evaluator:
                 return x
         if T.tag(base) == 'phi':
             return T.phi(base[1], self._slice(base[2], lo, hi), self._slice(base[3], lo, hi))
+        if T.is_op(base, 'BARR'):
+            return T.raw_op('BARR', T.slice_(base[2], lo, hi))
         return T.slice_(base, lo, hi)
 
     def _getitem(self, base, idx):
@@ -1554,6 +1597,8 @@ class Evaluator:
             if idx[4] != T.NONE:
                 return T.opaque('slice step')
             return self._slice(base, idx[2], idx[3])
+        if T.is_op(base, 'BARR'):
+            return T.getitem(base[2], idx)
         return T.getitem(base, idx)
 
     def ex_JoinedStr(self, e, fr):
@@ -2546,15 +2591,22 @@ def _contains_return(body):
     return False
 
 
+_AST_MEMO = {}
+
+
+def _ast_memo(kind, node, compute):
+    k = (kind, id(node))
+    e = _AST_MEMO.get(k)
+    if e is not None and e[0] is node:
+        return e[1]
+    r = compute()
+    _AST_MEMO[k] = (node, r)
+    return r
+
+
 def _contains_break_continue(node):
-    for n in ast.walk(node):
-        if isinstance(n, (ast.Break, ast.Continue)):
-            return True
-    return False
+    return _ast_memo('bc', node, lambda: any(isinstance(n, (ast.Break, ast.Continue)) for n in ast.walk(node)))
 
 
 def _is_generator(node):
-    for n in ast.walk(node):
-        if isinstance(n, (ast.Yield, ast.YieldFrom)):
-            return True
-    return False
+    return _ast_memo('gen', node, lambda: any(isinstance(n, (ast.Yield, ast.YieldFrom)) for n in ast.walk(node)))
